@@ -528,11 +528,13 @@ class Interp(object):
             fobj.write(new)
         return {"file": f % len(self.U.files), "changed": new != data}
 
-    def op_restart(self, d, backend="xml", via="file"):
+    def op_restart(self, d, backend="xml", via="file", clean=False):
         """Save d, forget every in-memory object reachable from it, load the file
         into new objects: only durable state survives."""
         os.makedirs(os.path.join(self.env.sandbox, "store"), exist_ok=True)
         path = self._path("restart%d" % len(self.U.files), backend)
+        if clean:
+            return self._restart_clean(d, path, backend)
         if via == "file":
             odml.save(d, path, backend)
             self.U.files.append({"path": path, "backend": backend})
@@ -542,6 +544,36 @@ class Interp(object):
             text = ODMLWriter(backend).to_string(d)
             new = ODMLReader(backend).from_string(text)
         return {"new": self._reg(new), "of": self.U.index(d)}
+
+    def _restart_clean(self, d, path, backend):
+        """The documented cycle for a document with resolved links: clean, save, load, finalize.
+        Returns the cardinalities per path before and after (what C09 says survives)."""
+        if self.U.links_cyclic(d):
+            raise Skip("links form a cycle")
+
+        def cards(doc):
+            out = {}
+            for obj in self.U.subtree(doc):
+                knd = kind_of(obj)
+                try:
+                    if knd == "sec":
+                        out["S " + obj.get_path()] = [canon(obj.sec_cardinality), canon(obj.prop_cardinality)]
+                    elif knd == "prop":
+                        out["P " + obj.get_path()] = [canon(obj.val_cardinality)]
+                except Exception:
+                    pass
+            return out
+        before = cards(d)
+        d.clean()
+        try:
+            odml.save(d, path, backend)
+            self.U.files.append({"path": path, "backend": backend})
+            new = odml.load(path, backend)
+            new.finalize()
+        finally:
+            d.finalize()
+        return {"new": self._reg(new), "of": self.U.index(d), "cards_before": before,
+                "cards_after": cards(new), "cards_original": cards(d)}
 
     def op_advance(self, s):
         self.env.clock.advance(s)
